@@ -262,8 +262,9 @@ func (p *ParagraphReader) Next() (*Paragraph, error) {
 		lastKey = strings.TrimSpace(els[0])
 		value := strings.TrimSpace(els[1])
 
-		paragraph.Order = append(paragraph.Order, lastKey)
-		paragraph.Values[lastKey] = value
+		/* A repeated field keeps its place and takes the latest value, so
+		 * that Order lists every key of Values exactly once. */
+		paragraph.Set(lastKey, value)
 	}
 }
 
